@@ -30,9 +30,16 @@ pub fn gen_case(rng: &mut Rng, _thorough: bool, case: u64) -> J {
     }
     // shuffle
     for i in (1..crits.len()).rev() { let j = rng.below(i as u64 + 1) as usize; crits.swap(i, j); }
-    let nc = 1 + rng.below(4) as usize;
-    let threaded = rng.chance(2, 3);
-    let fail_at = if rng.chance(1, 4) { Some(rng.below(n1 as u64 + 5) as usize) } else { None };
+    // barrier family (threaded launcher): the first evaluations wait until min(num_concurrent, budget) of them are in
+    // progress at once - work conservation seen from inside the objective function, also above the number of cores
+    let barrier = rng.chance(1, 6);
+    let cores = std::thread::available_parallelism().map(|n| n.get()).unwrap_or(4);
+    let nc = if barrier { *rng.pick(&[3usize, cores + 2]) } else { 1 + rng.below(4) as usize };
+    let threaded = barrier || rng.chance(2, 3);
+    if barrier { crits = vec![(json!({"numEval": 2 * nc}), TerminationCriterion::NumObjFuncEval(2 * nc))]; }
+    let n1 = if barrier { 2 * nc } else { n1 };
+    let want_live = nc.min(n1);
+    let fail_at = if !barrier && rng.chance(1, 4) { Some(rng.below(n1 as u64 + 5) as usize) } else { None };
     let rej_permille = *rng.pick(&[0u64, 0, 200]);
     let calls = Arc::new(AtomicUsize::new(0));
     let live = Arc::new(AtomicUsize::new(0));
@@ -43,7 +50,10 @@ pub fn gen_case(rng: &mut Rng, _thorough: bool, case: u64) -> J {
         let k = c2.fetch_add(1, Ordering::SeqCst);
         let now = l2.fetch_add(1, Ordering::SeqCst) + 1;
         m2.fetch_max(now, Ordering::SeqCst);
-        if threaded { std::thread::sleep(Duration::from_micros(300)); }
+        if barrier {
+            let t0 = std::time::Instant::now();
+            while m2.load(Ordering::SeqCst) < want_live && t0.elapsed() < Duration::from_secs(5) { std::thread::sleep(Duration::from_millis(1)); }
+        } else if threaded { std::thread::sleep(Duration::from_micros(300)); }
         let x = v["x"].as_f64().unwrap_or(0.0);
         let n = v["n"].as_i64().unwrap_or(0) as f64;
         l2.fetch_sub(1, Ordering::SeqCst);
@@ -72,7 +82,7 @@ pub fn gen_case(rng: &mut Rng, _thorough: bool, case: u64) -> J {
         Err(Error::NoIndividuals) => json!("noIndividuals"),
         Err(e) => json!({"other": e.to_string()}),
     };
-    json!({"mode": "run", "criteria": crits.iter().map(|c| c.0.clone()).collect::<Vec<_>>(), "nc": nc, "threaded": threaded, "failAt": fail_at,
+    json!({"mode": "run", "criteria": crits.iter().map(|c| c.0.clone()).collect::<Vec<_>>(), "nc": nc, "threaded": threaded, "barrier": barrier, "failAt": fail_at,
            "calls": calls.load(Ordering::SeqCst), "maxLive": max_live.load(Ordering::SeqCst), "ret": ret,
            "csvRows": rows.len(), "rowObjs": row_objs, "rowInputs": row_inputs, "bestFile": best_file})
 }
